@@ -17,6 +17,7 @@ DECIDED += "; R15 no window update once the peer's FIN has arrived; shared C16-R
 DECIDED += '; R3 also: the round counter is re-armed on every retransmitting path (handshake included); a retransmission reaching an orphaned socket is re-ACKed (shared C13-R9)'
 DECIDED += "; R16 no ordering comparison of two raw sequence numbers (tests are made on wrapping differences); the fixture's queue key is (deadline, emission number) (shared C19-R4)"
 DECIDED += '; R17 poll_recv / poll_peek answer end-of-file only after abort_error was found None; R16 also: no raw sequence number is widened before arithmetic; an orphan in FIN_WAIT2 is not reaped (shared C13-R1)'
+DECIDED += '; R18 the retransmission countdown is re-armed only where snd_una advances, and Kernel::egress sweeps for retransmissions before it segments'
 ASSUMPTIONS = ["BytesMut::extend_from_slice / split_to semantics"]
 
 T = "turmoil_net::kernel::socket::Tcb::"
